@@ -9,7 +9,12 @@ Three groups of cases:
   P  row order  : each preconditioner class that accepts a user matrix, built from a shuffled and
                   from the sorted listing of the same matrix; apply() on all unit vectors must agree
                   exactly (implementation vs implementation), plus implementation vs model where the
-                  base model has the smoother.
+                  base model has the smoother.  Round 2: make_solver, deflated_solver, schur / cpr / cpr_drs
+                  with ILU(0) inside, make_block_solver, shared_ptr entry points over zero-copy views
+                  (drv_pcorder3), run-time wrapper (drv_pcorder_rt, double, bitwise).
+  I  index types: column indices / counts at the edge of each index type (drv_adapters_idx).
+  VT value types: scaled_problem over complex / Eigen-block / static_matrix-block values (drv_adapters_vt*)
+                  vs Adapters.scaled_adapter at the ComplexS / BlockS instances (model driver blockspmv).
 """
 import random, re
 from fractions import Fraction as F
@@ -27,9 +32,11 @@ ASSUMPTIONS = [
     "amgcl templates instantiated at the exact rational vq::Q execute the same code as at double",
     "index types are modelled as two's complement integers of 32/64 bits (LP64 ABI of the harness build)",
     "Eigen / uBlas containers are not modelled: their adapters are compared with the source matrix only (correspondence in double on dyadic values)",
-    "zero-copy 'never frees user memory' is observed (pointer identity, own_data flag, content after destruction, AddressSanitizer build), not proved",
+    "zero-copy 'never frees user memory' is proved in the ownership state machine of C10 (Own.v: C17_zero_copy_view_is_borrow) and observed on the implementation (pointer identity, own_data flag, content after destruction, AddressSanitizer build); 'never writes' is observed only",
+    "value types: std::complex<double>, Eigen / static_matrix blocks run in double on dyadic data (every operation exact) against the model at the ComplexS / BlockS instances",
+    "run-time preconditioner wrapper: double build, shuffled vs sorted listings must give bit-identical operators (one thread)",
 ]
-TRUSTED_BASE = ["harness/drv_adapters.cpp, drv_adapters3p.cpp, drv_pcorder.cpp, drv_pcorder2.cpp; ocaml/adapters/ops_adapters.ml",
+TRUSTED_BASE = ["harness/drv_adapters.cpp, drv_adapters3p.cpp, drv_adapters_vt.cpp (+ Eigen build), drv_adapters_idx.cpp, drv_pcorder.cpp, drv_pcorder2.cpp, drv_pcorder3.cpp, drv_pcorder_rt.cpp; ocaml/adapters/ops_adapters.ml, ocaml/blockspmv/ops_blockspmv.ml (second extracted model driver: Extract_blockspmv.v)",
                 "AddressSanitizer (g++ -fsanitize=address) for the zero-copy cases"]
 RULE = ("cases derived from VERIF_SEED by tools/props/C17.py; distinct = distinct case payload; non-trivial = "
         "implementation output contains a non-zero value and is not an exception")
